@@ -11,5 +11,3 @@ func formatNode(w io.Writer, fset *token.FileSet, n ast.Node) error {
 	return printer.Fprint(w, fset, n)
 }
 
-func genTables(repo, out string)     {}
-func genTopoSchema(repo, out string) {}
